@@ -63,7 +63,26 @@ fn params_lexer(u: &Unit) -> Option<(String, String)> {
             other => Some(("leading_comma_accepted_by_new_params".into(), format!("Tokenizer::new_params({:?}) starts with {:?}, expected a command error", B(text.clone()), other))),
         };
     }
-    let exp: Vec<core::result::Result<Tok, i16>> = u.params.iter().filter_map(expected_tok).map(Ok).collect();
+    let mut exp: Vec<core::result::Result<Tok, i16>> = Vec::new();
+    let mut wide = false;
+    for e in u.params.iter() {
+        if crate::model::nondec_wide(e) {
+            wide = true;
+            break;
+        }
+        if let Some(t) = expected_tok(e) {
+            exp.push(Ok(t));
+        }
+    }
+    if wide {
+        // a literal of more than 64 bits: no token can carry its exact value, it must be refused
+        // (a value fault) at that position
+        let ok = got.len() == exp.len() + 1 && got[..exp.len()] == exp[..] && matches!(got.last(), Some(Err(c)) if is_execution_error(*c));
+        if !ok {
+            return Some(("over_wide_literal_not_refused_by_new_params".into(), format!("Tokenizer::new_params({:?}) yields {:?}, expected {:?} followed by an execution error for the literal that does not fit 64 bits", B(text.clone()), got, exp)));
+        }
+        return None;
+    }
     if got != exp {
         return Some(("new_params_disagrees_with_message_lexing".into(), format!("Tokenizer::new_params({:?}) yields {:?}, the elements are {:?}", B(text.clone()), got, exp)));
     }
@@ -226,6 +245,8 @@ impl Prop for C04 {
             "block_len_100",
             "indefinite_block",
             "nondecimal_64_bits",
+            "nondecimal_wider_than_64_bits_refused",
+            "nondecimal_zero_padded_beyond_64_bits",
             "separator_inside_string",
             "separator_inside_block",
             "separator_inside_expression",
@@ -465,6 +486,11 @@ impl Prop for C04 {
                                 if bits >= 63 {
                                     stats.probe("nondecimal_64_bits");
                                 }
+                                if crate::model::nondec_wide(e) {
+                                    stats.probe("nondecimal_wider_than_64_bits_refused");
+                                } else if bits > 66 {
+                                    stats.probe("nondecimal_zero_padded_beyond_64_bits");
+                                }
                             }
                             Elem::Expr(inner) => {
                                 if inner.0.iter().any(|c| matches!(*c, b',' | b':')) {
@@ -511,7 +537,9 @@ impl Prop for C04 {
                                 ));
                                 return;
                             }
-                            Err(e) if !is_command_error(e.code) => {
+                            // (an unrepresentable literal met before the fault is refused as the
+                            // value fault it is)
+                            Err(e) if !is_command_error(e.code) && !matches!(&pred.result, Err(x) if x.accepts(e)) => {
                                 out.push(Finding::new(
                                     "C04.fault_rejected",
                                     format!("not_a_command_error_{}", kind),
